@@ -225,7 +225,7 @@ def explain(c, impl, verd):
             "binary/ternary apply with op code, P f mask project the variables in mask with binary op f, R renaming, E ExtendWith, X GetMtbddForPrefix); "
             "impl = V values of every handle on all 3^NV assignments (variable 0 = least significant base-3 digit, 2 = don't care), EQ matrix of "
             "operator==, P GetPaths, W/W2 leaves seen by the traversing functors; gates: value (total assignments), dcvalue (value of some "
-            "refinement), eq (== iff same function), void1/void2; drift: dclow, paths")
+            "refinement), eq (== iff same function), void1/void2, void2_reuse (one VoidApply2 functor re-used after a traversal it cut short with stopProcessing()); drift: dclow, paths")
 
 LEVEL_TEXT = ("Coq theorems (all diagrams, assignments and leaf operations, no bounds) about an executable functional model of the package's reduced "
               "ordered multi-terminal diagrams that follows the code (highest variable on top, collapse of equal children, construction with "
